@@ -60,6 +60,14 @@ DONE = {
   text="The crate's own generic reconciliation routine and put are run over a BTreeMap backend written in the harness (adapter hook) and over in-memory and file-backed redb replicas for the same generated entry lists and parameters: byte-equality of every message of the three transcripts and equal final sets. Generated storage-primitive calls (ranges incl. wrap-around and x=y, first key, fingerprints, prefix lookups, filtered prefix removals, puts) are executed on the redb store and on the textbook BTreeMap definitions: equal results, order and post-states.",
   note="The BTreeMap definitions are the oracle; single-document stores only (ranges naming another document's ids are not claimed by the property).",
   technique=PBT + ": differential between the redb backend and a reference ordered map, transcript byte-equality"),
+ "C06": dict(level="fault_enumeration",
+  text="For each generated history on a file store, every store access is a candidate placement of the age-based automatic commit (forced through the transaction-age hook, executed by the crate's own age test) and, for each placement, a crash image (byte copy of the database file without flush) is taken after every operation from the armed one on; each image must open, equal a state the in-memory witness run passed through between the last documented commit and the current operation, and be self-consistent. Crash points x commit placements are enumerated exhaustively per history; histories are sampled.",
+  note="Trusts redb's commit atomicity (torn pages are out of scope); a crash is modelled as a copy of the file between two store calls of the single-threaded store.",
+  technique="fault enumeration (crash point x commit placement, exhaustive per generated history) with a metamorphic witness-run oracle"),
+ "C11": dict(level="exploration",
+  text="Two real live actors are driven through generated schedules of dial decisions, request/reply delivery and loss, and independent success/failure of both ends of each session; the harness owns the network and feeds synthetic results to the real completion handlers. Invariants over the history: one session at a time per pair, exactly one of two back-to-back simultaneous requests allowed, resync dials only after a refused report and every refused report followed up, Idle and probe-able at quiescence, NotFound for a non-syncing document.",
+  note="connect_and_sync / handle_connection themselves are replaced by synthetic results (their QUIC behaviour is not explored); handlers are atomic as in the actor loop.",
+  technique=PBT + ": schedule exploration of the two-node coordination state machine with history invariants"),
  "C05": dict(level="exploration",
   text="For generated replica states, generated queries over the full product of query options are compared, as exact sequences, with a naive filter/group/sort/skip/take executor over the store's actual contents; point lookups and the two physical access paths are cross-checked.",
   note="Latest-per-key semantics as documented on Query (author filter after grouping); ties between authors at the greatest timestamp are judged by a validity predicate or skipped and counted.",
